@@ -292,8 +292,8 @@ pub fn iso() -> IsoCheck<Case> {
             let cap = if ctx.tier == Tier::Thorough { prop_oneof![4 => Just(1u32 << 20), 1 => Just(16_777_215u32)].boxed() } else { Just(1u32 << 20).boxed() };
             (shape(), any::<bool>(), cap).prop_map(|(shape, close, cap)| Case { shape, close, cap }).boxed()
         })),
-        quick: 600,
-        thorough: 8_000,
+        quick: 3_000,
+        thorough: 40_000,
         fixed: Arc::new(fixed),
         eval: Arc::new(eval),
         stack: 2 << 20,
